@@ -53,10 +53,10 @@ class NumberParameter(Parameter):
 
         try:
             return int(value)
-        except ValueError:
+        except (ValueError, TypeError):
             try:
                 return float(value)
-            except ValueError:
+            except (ValueError, TypeError):
                 raise ParameterNotValid(value, "Number", lineno)
 
     @staticmethod
@@ -92,7 +92,8 @@ class PathParameter(StringParameter):
         self.must_exist = must_exist
 
     def clean(self, value, program=None, lineno=None):
-        super(PathParameter, self).clean(value, program, lineno)
+        if not isinstance(value, (six.string_types, os.PathLike)):
+            raise ParameterNotValid(value, "Path", lineno)
 
         if not os.path.isabs(value):
             if program.working_dir is None:
@@ -194,12 +195,12 @@ class DataTypeParameter(StringParameter):
         self.valid_types = valid_types
 
     def clean(self, value, program=None, lineno=None):
-        if value in self.valid_types.values():
-            return value
-
         try:
+            if value in self.valid_types.values():
+                return value
+
             return self.valid_types[value]
-        except KeyError:
+        except (KeyError, TypeError, ValueError):
             raise ParameterNotValid(
                 value,
                 "Data Type ({})".format(",".join(self.valid_types.keys())),
